@@ -971,7 +971,10 @@ def _b_seq(kind):
     def f(it, args, kw):
         if not args:
             return kind()
-        return kind(it.iterate(args[0], None))
+        try:
+            return kind(it.iterate(args[0], None))
+        except Undecidable:
+            return Sym('%s(%s)' % (kind.__name__, show(args[0])), struct=('call', kind.__name__, tuple(args), {}))
     return f
 
 
@@ -1006,7 +1009,7 @@ def _b_zip(it, args, kw):
         except Undecidable:
             known.append(None)
     if all(k is None for k in known):
-        raise Undecidable('zip of sequences of unknown length')
+        return Sym('zip(%s)' % ', '.join(show(a) for a in args), struct=('call', 'zip', tuple(args), {}))
     n = min(k for k in known if k is not None)
     cols = []
     for a, k in zip(args, known):
